@@ -80,18 +80,18 @@ theorem run_append_ok_error {s s1 : St} {l1 l2 : List Line} {o1 : List Eff}
 /-- The top of the stack (if any) is indented less than `k`. -/
 def Below (k : Nat) (B : List Branch) : Prop := ∀ b, B.head? = some b → b.cur.indent < k
 
-def BelowP (k : Nat) (P : List (Nat × Comp)) : Prop := ∀ p, P.head? = some p → p.1 < k
+def BelowP (k : Nat) (P : List (Nat × List Comp)) : Prop := ∀ p, P.head? = some p → p.1 < k
 
 theorem Below.mono {k k' : Nat} {B : List Branch} (h : Below k B) (hk : k ≤ k') : Below k' B :=
   fun b hb => Nat.lt_of_lt_of_le (h b hb) hk
 
-theorem BelowP.mono {k k' : Nat} {P : List (Nat × Comp)} (h : BelowP k P) (hk : k ≤ k') : BelowP k' P :=
+theorem BelowP.mono {k k' : Nat} {P : List (Nat × List Comp)} (h : BelowP k P) (hk : k ≤ k') : BelowP k' P :=
   fun b hb => Nat.lt_of_lt_of_le (h b hb) hk
 
 theorem below_cons {k : Nat} {b : Branch} {B : List Branch} (h : b.cur.indent < k) : Below k (b :: B) := by
   intro b' hb'; simp at hb'; subst hb'; exact h
 
-theorem belowP_cons {k : Nat} {p : Nat × Comp} {P : List (Nat × Comp)} (h : p.1 < k) : BelowP k (p :: P) := by
+theorem belowP_cons {k : Nat} {p : Nat × List Comp} {P : List (Nat × List Comp)} (h : p.1 < k) : BelowP k (p :: P) := by
   intro b' hb'; simp at hb'; subst hb'; exact h
 
 theorem closeGE_of_below {k : Nat} {B : List Branch} (h : Below k B) : closeGE k B = B := by
@@ -101,7 +101,7 @@ theorem closeGE_of_below {k : Nat} {B : List Branch} (h : Below k B) : closeGE k
     have := h b rfl
     simp [closeGE, Nat.not_le.mpr this]
 
-theorem popGE_of_below {k : Nat} {P : List (Nat × Comp)} (h : BelowP k P) : popGE k P = P := by
+theorem popGE_of_below {k : Nat} {P : List (Nat × List Comp)} (h : BelowP k P) : popGE k P = P := by
   cases P with
   | nil => rfl
   | cons b bs =>
@@ -118,7 +118,7 @@ theorem closeGE_closeGE_le {k k' : Nat} (hk : k ≤ k') (st : List Branch) :
       simp [closeGE, h, h2, ih]
     · simp [closeGE, h]
 
-theorem popGE_popGE_le {k k' : Nat} (hk : k ≤ k') (st : List (Nat × Comp)) :
+theorem popGE_popGE_le {k k' : Nat} (hk : k ≤ k') (st : List (Nat × List Comp)) :
     popGE k (popGE k' st) = popGE k st := by
   induction st with
   | nil => rfl
@@ -133,7 +133,7 @@ theorem closeGE_mono {k k' : Nat} {st B : List Branch} (h : closeGE k' st = B) (
     (hb : Below k B) : closeGE k st = B := by
   rw [← closeGE_closeGE_le hk, h, closeGE_of_below hb]
 
-theorem popGE_mono {k k' : Nat} {st P : List (Nat × Comp)} (h : popGE k' st = P) (hk : k ≤ k')
+theorem popGE_mono {k k' : Nat} {st P : List (Nat × List Comp)} (h : popGE k' st = P) (hk : k ≤ k')
     (hb : BelowP k P) : popGE k st = P := by
   rw [← popGE_popGE_le hk, h, popGE_of_below hb]
 
@@ -146,7 +146,7 @@ theorem closeGE_below (k : Nat) (st : List Branch) : Below k (closeGE k st) := b
     · simp only [closeGE, h, if_false]
       exact below_cons (Nat.not_le.mp h)
 
-theorem popGE_below (k : Nat) (st : List (Nat × Comp)) : BelowP k (popGE k st) := by
+theorem popGE_below (k : Nat) (st : List (Nat × List Comp)) : BelowP k (popGE k st) := by
   induction st with
   | nil => intro b hb; simp [popGE] at hb
   | cons b bs ih =>
@@ -193,23 +193,33 @@ theorem closeFor_same {k : Nat} {path : List Comp} {st B : List Branch} {blk : B
 
 /-! ## names -/
 
-theorem fullName_cons (p : Nat × Comp) (P : List (Nat × Comp)) : fullName (p :: P) = fullName P ++ [p.2] := by
+theorem fullName_cons (p : Nat × List Comp) (P : List (Nat × List Comp)) : fullName (p :: P) = fullName P ++ p.2 := by
   simp [fullName]
 
 theorem cleanName_append (a b : List Comp) : cleanName (a ++ b) = cleanName a ++ cleanName b := by
   simp [cleanName]
 
-theorem cleanName_fullName_cs (k n : Nat) (P : List (Nat × Comp)) :
-    cleanName (fullName ((k, Comp.cs n) :: P)) = cleanName (fullName P) := by
-  simp [fullName_cons, cleanName]
+theorem cleanName_nms (l : List String) : cleanName (nms l) = l := by
+  induction l with
+  | nil => rfl
+  | cons a t ih =>
+    simp only [nms, List.map_cons, cleanName, List.filterMap_cons] at ih ⊢
+    simp [ih]
 
-theorem cleanName_fullName_nm (k : Nat) (x : String) (P : List (Nat × Comp)) :
-    cleanName (fullName ((k, Comp.nm x) :: P)) = cleanName (fullName P) ++ [x] := by
-  simp [fullName_cons, cleanName]
+theorem cleanName_fullName_cs (k n : Nat) (pfx : List String) (P : List (Nat × List Comp)) :
+    cleanName (fullName ((k, nms pfx ++ [Comp.cs n]) :: P)) = cleanName (fullName P) ++ pfx := by
+  rw [fullName_cons, cleanName_append, cleanName_append, cleanName_nms]
+  simp [cleanName]
 
-theorem path_cons (k : Nat) (c : Comp) (P : List (Nat × Comp)) :
-    (fullName ((k, c) :: P)).dropLast = fullName P := by
-  simp [fullName_cons]
+theorem cleanName_fullName_nm (k : Nat) (x : List String) (P : List (Nat × List Comp)) :
+    cleanName (fullName ((k, nms x) :: P)) = cleanName (fullName P) ++ x := by
+  rw [fullName_cons, cleanName_append, cleanName_nms]
+
+theorem path_cons (k : Nat) (c : List Comp) (x : Comp) (P : List (Nat × List Comp)) :
+    (fullName ((k, c ++ [x]) :: P)).dropLast = fullName P ++ c := by
+  rw [fullName_cons]
+  simp only []
+  rw [← List.append_assoc, List.dropLast_concat]
 
 /-! ## the skip test -/
 
@@ -252,61 +262,70 @@ theorem anyTrue_switch (blk : Branch) (c : Case) :
 
 /-! ## single steps of `DIP.parse` in the situations that rendered programs produce -/
 
-theorem step_group {s : St} {k : Nat} {x : String} {B : List Branch} {P : List (Nat × Comp)}
+theorem step_group {s : St} {k : Nat} {x : List String} {B : List Branch} {P : List (Nat × List Comp)}
     (hB : closeGE k s.state = B) (hP : popGE k s.parents = P) :
-    step s ⟨k, x, .group⟩ = .ok ({ s with parents := (k, .nm x) :: P, state := B }, []) := by
+    step s ⟨k, x, .group⟩ = .ok ({ s with parents := (k, nms x) :: P, state := B }, []) := by
   simp [step, register, hB, hP]
 
-theorem step_node {s : St} {k : Nat} {x : String} {m : Bool} {v : Int} {B : List Branch}
-    {P : List (Nat × Comp)} (hB : closeGE k s.state = B) (hP : popGE k s.parents = P) :
-    step s ⟨k, x, .node m v⟩ = .ok ({ s with parents := (k, .nm x) :: P, state := B },
-      if falseCase B then [] else [⟨cleanName (fullName P) ++ [x], m, v⟩]) := by
+theorem step_node {s : St} {k : Nat} {x : List String} {m : Bool} {v : Int} {B : List Branch}
+    {P : List (Nat × List Comp)} (hB : closeGE k s.state = B) (hP : popGE k s.parents = P) :
+    step s ⟨k, x, .node m v⟩ = .ok ({ s with parents := (k, nms x) :: P, state := B },
+      if falseCase B then [] else [.node (cleanName (fullName P) ++ x) m v]) := by
   have hb : closeGE k B = B := by
     rw [← hB]; exact closeGE_of_below (closeGE_below k s.state)
   by_cases hf : falseCase B = true
   · simp [step, register, hB, hP, hf]
   · simp [step, register, hB, hP, hf, hb, cleanName_fullName_nm]
 
-/-- `@case` opening a new block. -/
-theorem step_open {s : St} {k : Nat} {x : String} {c : Bool} {B : List Branch} {P : List (Nat × Comp)}
-    (hB : closeGE (k + 1) s.state = B) (hb : Below k B) (hP : popGE k s.parents = P) :
-    step s ⟨k, x, .case c⟩ = .ok (St.mk ((k, .cs (s.numCases + 1)) :: P)
-      (⟨s.numBranches + 1, ⟨fullName P, k, c, .case, s.numCases + 1⟩, []⟩ :: B)
+theorem step_prop {s : St} {k : Nat} {x : List String} {p : PKind} {B : List Branch}
+    (hB : closeGE k s.state = B) :
+    step s ⟨k, x, .prop p⟩ = .ok ({ s with state := B }, if falseCase B then [] else [.prop p]) := by
+  simp [step, hB]
+
+/-- `@case` opening a new block: nothing with this indent and path is open. -/
+theorem step_open {s : St} {k : Nat} {x : List String} {c : Bool} {B : List Branch} {P : List (Nat × List Comp)}
+    (hB : closeFor k (fullName P ++ nms x) s.state = (B, false)) (hB' : closeGE k s.state = B)
+    (hP : popGE k s.parents = P) :
+    step s ⟨k, x, .case c⟩ = .ok (St.mk ((k, nms x ++ [.cs (s.numCases + 1)]) :: P)
+      (⟨s.numBranches + 1, ⟨fullName P ++ nms x, k, c && !falseCase B, .case, s.numCases + 1⟩, []⟩ :: B)
       (s.numCases + 1) (s.numBranches + 1), []) := by
-  have hp := path_cons k (.cs (s.numCases + 1)) P
-  have hc := closeFor_new (path := fullName P) hB hb
-  simp [step, solveCase, hp, hc, register, hP]
+  have hp := path_cons k (nms x) (.cs (s.numCases + 1)) P
+  simp [step, solveCase, hp, hB, hB', register, hP]
 
 /-- `@case` continuing the open block `blk`. -/
-theorem step_switch_case {s : St} {k : Nat} {x : String} {c : Bool} {B : List Branch} {blk : Branch}
-    {P : List (Nat × Comp)} (hB : closeGE (k + 1) s.state = blk :: B) (hi : blk.cur.indent = k)
-    (hpath : blk.cur.path = fullName P) (ht : blk.cur.ctype = .case) (hP : popGE k s.parents = P) :
-    step s ⟨k, x, .case c⟩ = .ok (St.mk ((k, .cs (s.numCases + 1)) :: P)
-      ({ blk with cur := ⟨fullName P, k, c, .case, s.numCases + 1⟩, earlier := blk.cur :: blk.earlier } :: B)
+theorem step_switch_case {s : St} {k : Nat} {x : List String} {c : Bool} {B : List Branch} {blk : Branch}
+    {P : List (Nat × List Comp)} (hB : closeGE (k + 1) s.state = blk :: B) (hb : Below k B) (hi : blk.cur.indent = k)
+    (hpath : blk.cur.path = fullName P ++ nms x) (ht : blk.cur.ctype = .case) (hP : popGE k s.parents = P) :
+    step s ⟨k, x, .case c⟩ = .ok (St.mk ((k, nms x ++ [.cs (s.numCases + 1)]) :: P)
+      ({ blk with cur := ⟨fullName P ++ nms x, k, c && !falseCase B, .case, s.numCases + 1⟩, earlier := blk.cur :: blk.earlier } :: B)
       (s.numCases + 1) s.numBranches, []) := by
-  have hp := path_cons k (.cs (s.numCases + 1)) P
-  have hc := closeFor_same (path := fullName P) hB hi hpath
-  simp [step, solveCase, hp, hc, register, hP, topIsElse, ht, switchCase]
+  have hp := path_cons k (nms x) (.cs (s.numCases + 1)) P
+  have hc := closeFor_same (path := fullName P ++ nms x) hB hi hpath
+  have hB' : closeGE k s.state = B := by
+    rw [← closeGE_closeGE_le (Nat.le_succ k), hB]
+    simp only [closeGE, hi, Nat.le_refl, if_true]
+    exact closeGE_of_below hb
+  simp [step, solveCase, hp, hc, hB', register, hP, topIsElse, ht, switchCase]
 
 /-- `@else` continuing the open block `blk`. -/
-theorem step_switch_else {s : St} {k : Nat} {x : String} {B : List Branch} {blk : Branch}
-    {P : List (Nat × Comp)} (hB : closeGE (k + 1) s.state = blk :: B) (hi : blk.cur.indent = k)
-    (hpath : blk.cur.path = fullName P) (ht : blk.cur.ctype = .case) (hP : popGE k s.parents = P) :
-    step s ⟨k, x, .els⟩ = .ok (St.mk ((k, .cs (s.numCases + 1)) :: P)
-      ({ blk with cur := ⟨fullName P, k, true, .els, s.numCases + 1⟩, earlier := blk.cur :: blk.earlier } :: B)
+theorem step_switch_else {s : St} {k : Nat} {x : List String} {B : List Branch} {blk : Branch}
+    {P : List (Nat × List Comp)} (hB : closeGE (k + 1) s.state = blk :: B) (hi : blk.cur.indent = k)
+    (hpath : blk.cur.path = fullName P ++ nms x) (ht : blk.cur.ctype = .case) (hP : popGE k s.parents = P) :
+    step s ⟨k, x, .els⟩ = .ok (St.mk ((k, nms x ++ [.cs (s.numCases + 1)]) :: P)
+      ({ blk with cur := ⟨fullName P ++ nms x, k, true, .els, s.numCases + 1⟩, earlier := blk.cur :: blk.earlier } :: B)
       (s.numCases + 1) s.numBranches, []) := by
-  have hp := path_cons k (.cs (s.numCases + 1)) P
-  have hc := closeFor_same (path := fullName P) hB hi hpath
+  have hp := path_cons k (nms x) (.cs (s.numCases + 1)) P
+  have hc := closeFor_same (path := fullName P ++ nms x) hB hi hpath
   simp [step, solveCase, hp, hc, register, hP, topIsElse, ht, switchCase]
 
 /-- `@end` closing the open block `blk`. -/
-theorem step_end {s : St} {k : Nat} {x : String} {B : List Branch} {blk : Branch}
-    {P : List (Nat × Comp)} (hB : closeGE (k + 1) s.state = blk :: B) (hi : blk.cur.indent = k)
-    (hpath : blk.cur.path = fullName P) (hP : popGE k s.parents = P) :
-    step s ⟨k, x, .fin⟩ = .ok (St.mk ((k, .cs (s.numCases + 1)) :: P) B
+theorem step_end {s : St} {k : Nat} {x : List String} {B : List Branch} {blk : Branch}
+    {P : List (Nat × List Comp)} (hB : closeGE (k + 1) s.state = blk :: B) (hi : blk.cur.indent = k)
+    (hpath : blk.cur.path = fullName P ++ nms x) (hP : popGE k s.parents = P) :
+    step s ⟨k, x, .fin⟩ = .ok (St.mk ((k, nms x ++ [.cs (s.numCases + 1)]) :: P) B
       (s.numCases + 1) s.numBranches, []) := by
-  have hp := path_cons k (.cs (s.numCases + 1)) P
-  have hc := closeFor_same (path := fullName P) hB hi hpath
+  have hp := path_cons k (nms x) (.cs (s.numCases + 1)) P
+  have hc := closeFor_same (path := fullName P ++ nms x) hB hi hpath
   simp [step, solveCase, hp, hc, register, hP]
 
 end SciVerif.C15
